@@ -10,12 +10,13 @@ FILES = ['src/memory/secure_pool.rs', 'src/memory/lockfree_pool.rs', 'src/memory
 
 def run(ctx):
     fx = ctx.facts("default")
-    fixtures.run(ctx, ['aba', 'atom'])
+    fixtures.run(ctx, ['aba', 'atom', 'relink'])
     fns = []
     npop = 0
     ncas = 0
     nat = 0
     natom = 0
+    nrel = 0
     for f in FILES:
         for fid in fx.fn_ids(f):
             if "::tests::" in fid:
@@ -26,6 +27,7 @@ def run(ctx):
             ncas += len(sync.cas_sites(fn))
             nat += len(sync.atomic_sites(fn))
             npop += sync.aba(ctx, fn, fx=fx)
+            nrel += sync.push_relink(ctx, fn, fx=fx)
             natom += sync.check_then_act(ctx, fn)
     npush = sync.aba_push_tags(ctx, fns, fx=fx)
     sync.load_modify_store(ctx, fns)
@@ -33,12 +35,14 @@ def run(ctx):
     ctx.instance("R-ABA.cas_pops", npop)
     ctx.instance("R-ABA.push.sites", npush)
     ctx.instance("R-ATOM.atomic_sites", nat)
+    ctx.instance("R-ABA.relink.pushes", nrel)
+    ctx.floor("R-ABA.relink.pushes", 4)
     ctx.floor("R-ABA.cas_sites", 8)
     ctx.floor("R-ABA.cas_pops", 4)
     ctx.floor("R-ABA.push.sites", 1)
     ctx.floor("R-ATOM.atomic_sites", 100)
     return dict(
-        level_note="decides the structural well-formedness clause of C08 (ABA safety of every CAS-pop, tag advance on push, no "
+        level_note="decides the structural well-formedness clause of C08 (ABA safety of every CAS-pop incl. a single head snapshot, tag advance on push, the pushed node relinked inside the retry loop, no "
                    "load-then-RMW ownership decision); linearizability, exactly-once hand-over and counter totals would need "
                    "schedule enumeration (a different technique family) and are NOT decided",
         explanation="R-ABA: a compare_exchange whose new value depends on a memory read through the loaded head (CAS-pop on an "
